@@ -91,7 +91,7 @@ func c05Items() []lib.Val {
 	}
 	one := lib.Val{ID: "1", V: system.Integer(1), RKind: "num", RNum: ratI(1), Class: "int"}
 	two := lib.Val{ID: "2", V: system.Integer(2), RKind: "num", RNum: ratI(2), Class: "int"}
-	d1 := lib.Val{ID: "1.0", V: system.MustParseDecimal("1.0"), RKind: "num", RNum: ratI(1), Class: "dec"}
+	d1 := lib.Val{ID: "1.0", V: lib.Dec("1.0"), RKind: "num", RNum: ratI(1), Class: "dec"}
 	sa := lib.Val{ID: "'a'", V: system.String("a"), RKind: "str", RStr: "a", Class: "str"}
 	return []lib.Val{one, two, d1, sa, find("f.nameA"), find("f.nameA2"), find("f.nameB")}
 }
